@@ -13,11 +13,28 @@ NA: dict[str, str] = {}
 
 exec(open(V / "tools" / "claims.py").read())
 
+import importlib
+import re
+
+from mxverif.core import Check
+
+ROBUST = (" Rules are evaluated on a semantics-preserving normal form of the source (helpers that are new relative to the pinned tree are "
+          "inlined, read-only aliases propagated, no-ops dropped) and mostly on per-path summaries (forward expression propagation), so that "
+          "renaming, re-staging, extracting helpers, match/isinstance/table dispatch and loop/comprehension variants read alike "
+          "(DESIGN.md section 11; 80 independent behaviour-preserving refactors pass). A shape outside what a rule recognises yields "
+          "exit 2 naming the function; an exotic equivalent formulation can still draw a false alarm (section 11.3).")
+
 checks = []
 for pid in ids:
     if pid not in CLAIMS:
         continue
     tech, text, note, ref = CLAIMS[pid]
+    mod = importlib.import_module(f"mxverif.checks.{pid.lower()}")
+    cls = next(v for v in vars(mod).values() if isinstance(v, type) and issubclass(v, Check) and v is not Check and getattr(v, "pid", "") == pid)
+    rule_ids = sorted(cls.rules, key=lambda r: (re.sub(r"\d+", "", r), int(re.sub(r"\D", "", r) or 0)))
+    text = text + " Rule identifiers in this check: " + ", ".join(rule_ids) + " (each stated in DESIGN.md section 9 and in the evidence file; rules added after this summary was written are listed there)."
+    note = note + ROBUST
+    ref = ref + ", sections 9-11"
     checks.append(
         {
             "property_id": pid,
@@ -46,9 +63,10 @@ m = {
             "name": "mxverif",
             "path": "/verif/mxverif",
             "serves_properties": [c["property_id"] for c in checks],
-            "kind_free_text": "repository-specific static analysers over Python ASTs: program index, path-enumerating "
-            "abstract interpreter, qualifier dataflow, dispatcher/handler extraction, expression canonicalisation; "
-            "in-memory seeded-variant sweep validates each checker",
+            "kind_free_text": "repository-specific static analysers over Python ASTs: program index, semantics-preserving normal form "
+            "(new-helper inlining, alias propagation), path-enumerating abstract interpreter with per-path summaries (forward expression "
+            "propagation, no solver), qualifier dataflow, block abstraction, dispatcher/operator-table extraction, canonicalisation of "
+            "extracted arithmetic with sympy; an in-memory seeded-variant sweep validates each checker on every run",
         }
     ],
     "checks": checks,
